@@ -53,6 +53,30 @@ def brute_clt(clt, x):
     return None
 
 
+def zero_weight_stress(rs):
+    """a mixture whose zero-weight component explains the evidence >16 nats better than the others:
+    the descent must still follow a component of positive weight (argmax of w_k * val_k, not of val_k
+    or of (w_k + eps) * val_k)."""
+    from deeprob.spn.structure.leaf import Bernoulli
+    from deeprob.spn.structure.node import Sum, Product, assign_ids
+    n = int(rs.randint(4, 6)); scope = G.rand_scope(rs, n, spread=2)
+    hi, lo = 1.0 - 2.0 ** -10, 2.0 ** -10
+    k = int(rs.randint(2, 4))
+    pos = int(rs.randint(k))                       # position of the zero-weight child
+    comps = []
+    for c in range(k):
+        ps = [hi] * n if c == pos else [lo if rs.rand() < 0.8 else 0.25 for _ in range(n)]
+        comps.append(Product(children=[Bernoulli(v, float(p)) for v, p in zip(scope, ps)]))
+    w = np.array(G.dyadic_weights(rs, k - 1) if k > 2 else [1.0], dtype=np.float64)
+    w = np.insert(w, pos, 0.0)
+    root = Sum(children=comps, weights=w.astype(np.float32))
+    if rs.rand() < 0.5:                             # bury it under a product / another sum
+        extra = Bernoulli(max(scope) + 1, 0.25)
+        root = Product(children=[root, extra])
+    assign_ids(root)
+    return root
+
+
 def main(tier, seed, replay=None):
     rep = C.Report(PID, tier, seed)
     rs = np.random.RandomState(seed % (2 ** 31))
@@ -74,7 +98,13 @@ def main(tier, seed, replay=None):
         body = list(HEADER); names = []; cur = []
     for i in range(ncirc):
         kinds = [("bern",), ("bern", "cat")][i % 2]
-        root = c01.gen_circuit(rs, i, tier, kinds=kinds, clt=0.3)
+        root = c01.gen_circuit(rs, i, tier, kinds=kinds, clt=0.3) if i % 8 != 6 else zero_weight_stress(rs)
+        if i % 8 == 6:
+            pass
+        elif i % 4 == 0:
+            G.skew_params(root, rs)     # zero-weight children, extreme leaf parameters
+        elif i % 4 == 2:                # near-deterministic mixtures: evidence can favour a zero-weight child by > 16 nats
+            G.skew_params(root, rs, p_zero_w=0.7, p_extreme=1.0, hard=False)
         tab = bern_one_first(G.Table(root))
         dom = tab.domains(); scope = sorted(tab.root_scope()); width = max(scope) + 1
         rows = c01.missing_rows(rs, scope, dom, tier)
@@ -129,7 +159,7 @@ def main(tier, seed, replay=None):
     flush()
     rep.cov["input_distribution"] = dist
     res = C.run_case_files(PID, files)
-    ties = 0; flagged = []
+    ties = 0; zero_ev = 0; flagged = []
     for (name, rc, ints, raw), meta in zip(res, metas):
         if rc != 0 or ints is None:
             rep.obligation(False); rep.violation(dict(kind="correspondence-shard-failed", shard=name, log=raw), False); continue
@@ -142,12 +172,15 @@ def main(tier, seed, replay=None):
                 groups[-1].append(z)
         for cs, codes in zip(meta, groups):
             for r, y, code in zip(cs["rows"], cs["Y"], codes):
-                rep.count(dict(c=cs["tab"].brief(), r=sorted(r.items())), nontrivial=(code != 16 and any(v is None for v in r.values())))
-                if code == 16:
+                rep.count(dict(c=cs["tab"].brief(), r=sorted(r.items())), nontrivial=(code not in (16, 32) and any(v is None for v in r.values())))
+                if code == 32:
+                    zero_ev += 1
+                elif code == 16:
                     ties += 1
                 elif code:
                     flagged.append((cs, r, y))
     rep.cov["numerical_ties_excluded"] = ties
+    rep.cov["zero_probability_evidence_rows_excluded"] = zero_ev
     for cs in [m[0] for m in metas[:1]] + [m[0] for m in metas[-1:]]:
         rep.sample(dict(kind=cs["kind"], model=cs["tab"].brief(), rows=[sorted(r.items()) for r in cs["rows"][:2]],
                         impl_mpe=[y.tolist() for y in cs["Y"][:2]]))
